@@ -114,7 +114,7 @@ func (fd *FuncDoc) Describe(b []byte, indent, right int, ansi bool) []byte {
 		b = append(b, indentSpaces[:indent]...)
 		b = append(b, "Arguments:\n"...)
 		for _, da := range fd.Args {
-			if da.Name[0] == '&' {
+			if 0 < len(da.Name) && da.Name[0] == '&' {
 				continue
 			}
 			b = append(b, indentSpaces[:indent+2]...)
